@@ -27,12 +27,12 @@ Lemma p3_loop_step : forall rec n s (t : ptok) r,
 Proof. reflexivity. Qed.
 
 Lemma Sx_pre : forall cpp o l rb tb kb,
-  Sx cpp rb tb kb -> kb <= 1 -> ender rb -> lead_ok rb = true ->
+  Sx cpp rb tb kb -> kb <= 1 -> lead_ok rb = true ->
   N.ltb (fst (rt tb)) l = false ->
   (is_incdec (TOp (pre_opr o)) = true -> hd_is bad_after_incdec rb = false) ->
   Sx cpp ((l, TOp (pre_opr o)) :: rb) (U (l, TOp (pre_opr o)) tb) 1.
 Proof.
-  intros cpp o l rb tb kb IHb Hkb Hend Hlead Hlab Hbad f d s rest out n Hrk Hd Hn Hlen Hop Hps Hj Hnd Hq Hq14 Hc.
+  intros cpp o l rb tb kb IHb Hkb Hlead Hlab Hbad f d s rest out n Hrk Hd Hn Hlen Hop Hps Hj Hnd Hq Hq14 Hq1 Hc.
   set (op := (l, TOp (pre_opr o))) in *.
   destruct n as [|n']; [unfold cont in Hc; rewrite lpn_0 in Hc; discriminate|].
   cbn [length] in Hn. cbn [app length] in Hlen. rewrite app_length in Hlen.
@@ -61,12 +61,19 @@ Proof.
           by (cbn [rev]; rewrite <- app_assoc; reflexivity).
         apply Hq. lia.
       - intros E. lia.
+      - intros E a0. unfold s1. cbn [bef].
+        replace (rev rb ++ op :: bef s) with (rev (op :: rb) ++ bef s)
+          by (cbn [rev]; rewrite <- app_assoc; reflexivity).
+        apply Hq1. reflexivity.
       - unfold mkafter. apply cont_quiet; [exact Hkb|]. intros r Hr. unfold s1. cbn [bef asgn stk depth].
         destruct r as [|r].
         + replace (rev rb ++ op :: bef s) with (rev (op :: rb) ++ bef s)
             by (cbn [rev]; rewrite <- app_assoc; reflexivity).
           apply Hq. lia.
-        + assert (r = 0) by lia. subst r. apply quiet_p3_aft. apply ender_aft. exact Hend. }
+        + assert (r = 0) by lia. subst r.
+          replace (rev rb ++ op :: bef s) with (rev (op :: rb) ++ bef s)
+            by (cbn [rev]; rewrite <- app_assoc; reflexivity).
+          apply Hq1. reflexivity. }
     unfold rb at 1. cbn [app]. change (t1 :: rb' ++ rest) with (rb ++ rest). unfold D_P3 in *.
     rewrite Hb.
     unfold s', mkafter, set_depth, set_stk, s1. cbn [stk bef depth asgn Nat.pred rt].
